@@ -49,6 +49,8 @@ pub struct Exec {
     b: GlideProcessor, // receives only the calls the statement says are honoured
     c: GlideProcessor, // receives min(t, 10)
     twins_ok: bool,
+    /// a set_time call fell on the edge of the 0.05 s dead band: the statement leaves open which time is in effect
+    t_unknown: bool,
     t_eff: Option<f32>,
     gain_max: f64,
     max_abs_x: f64,
@@ -162,7 +164,7 @@ impl Exec {
             }
             // ---------------- C14 landmarks: a step after a settled hold
             self.lm = None;
-            if self.settled && !self.is_fast() {
+            if self.settled && !self.is_fast() && !self.t_unknown {
                 let n = self.n_eff();
                 if n >= 100.0 {
                     let y0 = self.y_last as f64;
@@ -215,7 +217,7 @@ impl Exec {
         // ---------------- C13 bounded settling; C14 fastest response
         let n_eff = self.n_eff();
         let window = (3.0 * n_eff) as u64 + 16;
-        if self.since_change == window {
+        if self.since_change == window && !self.t_unknown {
             ctx.probe(P_SETTLE_WINDOWS);
             let lim = tol + 0.005 * self.settle_start_err;
             ctx.check(13, "settles_on_held_input", err.abs() <= lim, || {
@@ -228,7 +230,7 @@ impl Exec {
         if self.since_change >= window {
             self.settled = err.abs() <= tol + 0.005 * self.settle_start_err + 1e-7 * self.max_abs_x;
         }
-        if self.is_fast() && self.since_change == 8 {
+        if self.is_fast() && self.since_change == 8 && !self.t_unknown {
             ctx.probe(P_FAST_SETTLE_CHECKS);
             let lim = 1e-6 * self.max_abs_x + 1e-30;
             let t = self.t_eff;
@@ -284,6 +286,7 @@ impl Engine for GlideEngine {
             b: real!(GlideProcessor::new(cfg.fs)),
             c: real!(GlideProcessor::new(cfg.fs)),
             twins_ok: true,
+            t_unknown: false,
             t_eff: None,
             gain_max: 1.0,
             max_abs_x: 0.0,
@@ -324,7 +327,7 @@ impl Engine for GlideEngine {
                     None => true, // nothing requested yet: the first call always takes effect
                     Some(te) => {
                         let d = (t as f64 - te as f64).abs();
-                        if (d - 0.05).abs() < 1e-6 * (1.0 + t.abs() as f64) {
+                        if (d - 0.05).abs() < 1e-6 * (1.0 + t.abs() as f64 + te.abs() as f64) {
                             ambiguous = true;
                         }
                         d > 0.05
@@ -336,6 +339,16 @@ impl Engine for GlideEngine {
                         ctx.suspended += 1;
                     }
                     ex.twins_ok = false;
+                    ex.t_unknown = true;
+                    // keep the tolerance sound for either outcome
+                    if t.is_finite() && t >= 0.0 {
+                        let g = ex.gain_for(t);
+                        if g > ex.gain_max {
+                            ex.gain_max = g;
+                        }
+                    } else {
+                        ex.gain_max = ex.gain_max.max(ex.gain_for(10.0));
+                    }
                 }
                 let far_from_target = ex.err_prev.abs() > ex.tol() * 4.0 + 1e-4 * ex.max_abs_x;
                 if honoured {
@@ -401,6 +414,7 @@ impl Engine for GlideEngine {
                 ex.b = real!(GlideProcessor::new(ex.fs));
                 ex.c = real!(GlideProcessor::new(ex.fs));
                 ex.twins_ok = true;
+                ex.t_unknown = false;
                 ex.t_eff = None;
                 ex.gain_max = 1.0;
                 ex.max_abs_x = 0.0;
